@@ -18,6 +18,7 @@ import subprocess
 import time
 
 import shutil
+import sys
 import vlib
 
 PROPERTIES = ["C01", "C02", "C03", "C04", "C05", "C06", "C07", "C08", "C16"]
@@ -476,6 +477,8 @@ def run(pid, tier, seed, replay):
         # certificate transactions (x/cert) belong to "every marketplace transaction" of these two statements; the cert
         # family's specification and harness decide their part: signer and frame for C06, repeated execution (also across
         # a certificate's validity boundary and in a second instance) for C07
+        if os.path.dirname(os.path.abspath(__file__)) not in sys.path:
+            sys.path.insert(0, os.path.dirname(os.path.abspath(__file__)))
         import cert
         cv, ccov = cert.extra_stage(pid, vh, tier, seed)
         violations += cv
